@@ -238,6 +238,15 @@ class PageEval:
                 return [('lit', cleandoc(node.args[0].value))]
             if name == 'str' and len(node.args) == 1:
                 return self.frag(node.args[0], env)
+            # `text.encode('utf-8'[, errors])` with an error handler that replaces what cannot be encoded by inert
+            # ASCII ('?', '\\udcff', '&#56575;', nothing): the text itself.  surrogateescape / surrogatepass are not
+            # in the list: they turn a code point into an arbitrary byte, '<' included.
+            if isinstance(node.func, ast.Attribute) and node.func.attr == 'encode' and 1 <= len(node.args) <= 2 \
+                    and not node.keywords and all(isinstance(a, ast.Constant) and isinstance(a.value, str) for a in node.args) \
+                    and node.args[0].value.lower().replace('_', '-') in ('utf-8', 'utf8') \
+                    and (len(node.args) == 1 or node.args[1].value in ('strict', 'backslashreplace', 'replace', 'ignore',
+                                                                      'xmlcharrefreplace', 'namereplace')):
+                return self.frag(node.func.value, env)
             if isinstance(node.func, ast.Name) and name in self.funcs and name not in PAGES:
                 return self.inline(self.funcs[name], node, env)
             if isinstance(node.func, ast.Attribute) and node.func.attr == 'join' \
